@@ -174,6 +174,10 @@ func BuildInstance(c *Case) (*ast.KnowledgeBase, error) {
 	for _, n := range c.Removed {
 		lib.RemoveRuleEntry(n, "kb", "1")
 	}
+	if c.Variant == "blueprint" {
+		// the library's own knowledge base, not a copy of it: the reference an instance must behave like (C09)
+		return lib.GetKnowledgeBase("kb", "1"), nil
+	}
 	rounds := 0
 	cut := -1
 	switch {
